@@ -21,6 +21,10 @@
 //@free Hopping(label_t,label_t,double,ushort,ushort,ushort,ushort) => Presets_Hopping7
 //@free NupNdown(label_t,label_t,double,ushort,ushort,ushort,ushort) => Presets_NupNdown7
 //@free NupNdown(label_t,double,ushort,ushort,ushort,ushort) => Presets_NupNdown6
+//@free Hopping(label_t,label_t,double,ushort,ushort) => Presets_Hopping5
+//@free NupNdown(label_t,double,ushort,ushort) => Presets_NupNdown4
+//@free NupNdown(label_t,double,ushort,ushort,ushort) => Presets_NupNdown5
+//@free NupNdown(label_t,double,ushort) => Presets_NupNdown5_dflt
 //@free Spinflip => Presets_Spinflip
 //@free PairHopping => Presets_PairHopping
 //@free SminusSplus => Presets_SminusSplus
@@ -55,6 +59,9 @@ static inline struct Lattice_Term *Lattice_Term_new1(unsigned int N)
   return p;
 }
 //@tu src/pomerol/LatticePresets.cpp
+/* a call with defaulted trailing arguments is printed with its explicit arguments only; the defaults are those of the declaration
+ * (LatticePresets.h: NupNdown(Label, Value, orbital, spin1 = up, spin2 = down)) */
+#define Presets_NupNdown5_dflt(l, v, o) Presets_NupNdown5((l), (v), (o), up, down)
 
 /* ---- spec vocabulary: one operator c^+ / c with (label, orbital, spin) at position p of a term */
 #define OP_IS(T, p, dag, l, o, s) ((T)->OperatorSequence.d[p] == (dag) && (T)->SiteLabels.d[p] == (l) && (T)->Orbitals.d[p] == (o) && (T)->Spins.d[p] == (s))
@@ -206,6 +213,13 @@ struct Lattice_Term g_ft; struct Lattice_Term nondet_Term(void);
 #define NN_POST(l1, l2, v, o1, o2, s1, s2) (((l1) == (l2) && (o1) == (o2) && (s1) == (s2)) ? IS_LEVEL(&g_ft, v, l1, o1, s1) : IS_NN(&g_ft, v, l1, l2, o1, o2, s1, s2))
 #define PresetsC_NupNdown7(l1, l2, v, o1, o2, s1, s2) FT(NN_POST(l1, l2, v, o1, o2, s1, s2))
 #define PresetsC_NupNdown6(l, v, o1, o2, s1, s2) FT(NN_POST(l, l, v, o1, o2, s1, s2))
+/* the remaining overloads (not called by any add* function today; a change that switches to one of them must reach the monitors, not break extraction):
+ * each assumes exactly the post-condition its Part 1 harness proves (h_Presets_Hopping5, h_Presets_NupNdown4, h_Presets_NupNdown5); a call with
+ * defaulted spins is printed with its explicit arguments only and gets the defaults of the declaration (spin1 = up, spin2 = down) */
+#define PresetsC_Hopping5(l1, l2, v, o, s) FT(IS_HOPPING(&g_ft, v, l1, l2, o, o, s, s))
+#define PresetsC_NupNdown4(l, v, o1, o2) FT(IS_NN(&g_ft, v, l, l, o1, o2, up, down))
+#define PresetsC_NupNdown5(l, v, o, s1, s2) FT(((s1) == (s2)) ? IS_LEVEL(&g_ft, v, l, o, s1) : IS_NN(&g_ft, v, l, l, o, o, s1, s2))
+#define PresetsC_NupNdown5_dflt(l, v, o) PresetsC_NupNdown5(l, v, o, up, down)
 #define PresetsC_SplusSminus(l1, l2, v, o) FT(IS_SPSM(&g_ft, v, l1, l2, o))
 #define PresetsC_SminusSplus(l1, l2, v, o) FT(IS_SMSP(&g_ft, v, l1, l2, o))
 /* the two factories that may throw (contract proved in Part 1: throws iff equal orbitals or equal spins, else the documented term) */
@@ -221,6 +235,10 @@ struct Lattice_Term g_ft; struct Lattice_Term nondet_Term(void);
 //@free Hopping(label_t,label_t,double,ushort,ushort,ushort,ushort) => PresetsC_Hopping7
 //@free NupNdown(label_t,label_t,double,ushort,ushort,ushort,ushort) => PresetsC_NupNdown7
 //@free NupNdown(label_t,double,ushort,ushort,ushort,ushort) => PresetsC_NupNdown6
+//@free Hopping(label_t,label_t,double,ushort,ushort) => PresetsC_Hopping5
+//@free NupNdown(label_t,double,ushort,ushort) => PresetsC_NupNdown4
+//@free NupNdown(label_t,double,ushort,ushort,ushort) => PresetsC_NupNdown5
+//@free NupNdown(label_t,double,ushort) => PresetsC_NupNdown5_dflt
 enum { PM_COULOMBS = 1, PM_LEVEL, PM_MAGNET, PM_SZSZ, PM_SS, PM_HOPPING, PM_HOPPING8, PM_HOPDIAG, PM_HOPDIAG2 };
 struct PC { int mode; label_t l1, l2; double a1, a2; int gkind; unsigned short ga, gz1, gz2; unsigned long exp; long n; unsigned short gb; } g_pc;   /* constant during a call */
 struct PMS { unsigned long calls, hits; } g_pm;                                                                                 /* monitor state */
@@ -740,6 +758,14 @@ void h_addHopping4(void) { struct Lattice *L; label_t l1, l2; double t; LatticeP
  *  X4 addSS S+S- amplitude J/4                                    px_monitor.assertion.2, LatticePresets_addSS.loop_invariant_step.2
  *  X5 addSS S+S-/S-S+ loop starts at 1                            LatticePresets_addSS.postcondition.3, loop_invariant_base.2
  *  X6 addHopping/4 orbital loop bounded by Spins                  LatticePresets_addHopping4.postcondition.1/.2, loop_invariant_step.6
+ * Wave 2 (a change that calls ANOTHER overload of a factory reaches the monitors instead of breaking extraction: stubs PresetsC_Hopping5 /
+ *   _NupNdown4 / _NupNdown5 / _NupNdown5_dflt assume exactly the post-conditions proved by h_Presets_Hopping5 / _NupNdown4 / _NupNdown5):
+ *  O1 addCoulombS NupNdown(Label, U, i) (defaulted spins up, down; differs only for >= 3 spins)   LatticePresets_addCoulombS.loop_invariant_step.4/.10
+ *       (completeness: the ghost term U n_{ias} n_{ias'} with s = 2 is never handed over, n_up n_down is handed over more than once; every single
+ *        term IS a member of the documented sum, so the soundness assertion of pm_monitor holds for this mutant)
+ *  O2 addHopping/8 Hopping(Label1, Label2, t, Orbital1, Spin1)                                   pm_monitor.assertion.1/.2, LatticePresets_addHopping8.postcondition.3
+ *  O3 addSzSz NupNdown(Label1, -ExchJ/4., i, up, down) (5-argument overload: both operators on site 1)   px_monitor.assertion.2, LatticePresets_addSzSz.loop_invariant_step.2
+ *  (NupNdown(Label, Value, a, b) with FOUR arguments does not compile: ambiguous between the 4- and the defaulted 5-argument overload)
  *  X7 addHopping/4 spin sizes compared with Label1 (D10 shape)    LatticePresets_addHopping4.postcondition.1/.2
  * REMARK (not a violation of the documented operator): addCoulombP stores the (U'-J)/2 terms also when U' == J (amplitude zero): L->Terms->addTerm
  *   bypasses the zero filter of Lattice::addTerm and the preset has no `if (std::abs(...))` guard for this sum, unlike for U, U', J and Level.
